@@ -122,6 +122,16 @@ def _rnd(v, e):
     return e + (abs(v) + e) * U
 
 
+def _leaf(n):
+    "value of a (possibly negated) number leaf, else None"
+    if n.op == 'num':
+        return n.val
+    if n.op == 'neg':
+        v = _leaf(n.a)
+        return -v if v is not None else None
+    return None
+
+
 def evaluate(n):
     """(exact value, bound on the absolute error of a binary64 evaluation of the same tree in any grouping of
     adjacent * and /). Standard forward error analysis, done in exact arithmetic."""
@@ -150,6 +160,11 @@ def evaluate(n):
         return q, e
     e4 = 4 * e
     if floor(q - e4) != floor(q + e4):
+        # on (or within the error bound of) a discontinuity of floor. When both operands are plain numbers the binary64 meaning of
+        # `a \ b` = floor(a / b) is unambiguous (one correctly rounded division of two correctly rounded literals): follow it.
+        la, lb = _leaf(n.a), _leaf(n.b)
+        if la is not None and lb is not None:
+            return Fraction(floor(float(la) / float(lb))), Fraction(0)
         raise Unstable()
     return Fraction(floor(q)), Fraction(0)
 
